@@ -12,6 +12,7 @@ import (
 	"github.com/olric-data/olric/internal/verif/core"
 	"github.com/olric-data/olric/internal/verif/sched"
 	"github.com/olric-data/olric/internal/verif/simcluster"
+	"github.com/olric-data/olric/internal/verif/simnet"
 )
 
 // C18: a value handed to a caller is a private snapshot; a buffer passed to Put may be reused.
@@ -28,6 +29,7 @@ type c18Case struct {
 	Table  int      `json:"table"`
 	PutBuf bool     `json:"put_buf,omitempty"` // the "reuse the Put buffer" scenario instead
 	Via    string   `json:"via,omitempty"`     // ... through which writing call the buffer was passed
+	RR     bool     `json:"rr,omitempty"`      // the "read-repair of a returned value" scenario instead
 	Async  bool     `json:"async,omitempty"`   // ... with asynchronous replication (R=2): the replication runs after the buffer was rewritten
 	// Pre: what happened to the store between the Put and the read that hands the value out
 	// ("fill": neighbours written until the entry's table is sealed and a new one is active;
@@ -36,8 +38,11 @@ type c18Case struct {
 }
 
 func (c c18Case) String() string {
+	if c.RR {
+		return fmt.Sprintf("backup owner missed the write; value from %s via %s (read-repair on), bytes overwritten by the caller", c.Handle, c.Path)
+	}
 	if c.PutBuf {
-		return fmt.Sprintf("caller overwrites its Put buffer after Put returned, via %s, table %d", c.Path, c.Table)
+		return fmt.Sprintf("caller overwrites its Put buffer after %s returned (async replication: %v), via %s, table %d", c.Via, c.Async, c.Path, c.Table)
 	}
 	if len(c.Pre) > 0 {
 		return fmt.Sprintf("Put, then [%s], then value from %s via %s, then [%s], table %d", strings.Join(c.Pre, " ; "), c.Handle, c.Path, strings.Join(c.Seq, " ; "), c.Table)
@@ -91,6 +96,10 @@ func c18Cases(tier string) []c18Case {
 				}
 			}
 		}
+		// a value returned by a Get that triggers read-repair (the backup owner missed the write)
+		for _, h := range []string{"Get.Byte", "Get.Scan(*[]byte)"} {
+			cs = append(cs, c18Case{Handle: h, Path: p, Table: 1 << 16, RR: true})
+		}
 		for _, t := range []int{128, 1 << 16} {
 			// every public call that takes a value to store
 			for _, via := range []string{"Put", "Put+EX", "Put+NX", "GetPut", "Pipeline.Put", "Pipeline.Put+EX", "Pipeline.GetPut"} {
@@ -123,6 +132,9 @@ func c18Run(cs c18Case) (string, string) {
 	opts := simcluster.Opts{N: 2, Replicas: 1, Partitions: 3, TableSize: cs.Table}
 	if cs.Async {
 		opts.Replicas, opts.Async = 2, true
+	}
+	if cs.RR {
+		opts.Replicas, opts.ReadRepair, opts.HoldGo = 2, true, true
 	}
 	cl := simcluster.New(opts)
 	ctx := context.Background()
@@ -160,6 +172,58 @@ func c18Run(cs c18Case) (string, string) {
 		return string(append([]byte{}, b...)), err
 	}
 	sig := fmt.Sprintf("handle=%s/path=%s", cs.Handle, cs.Path)
+	if cs.RR {
+		// the backup owner misses an overwrite (its link is cut, WriteQuorum 1), then is reachable again:
+		// the Get finds its copy stale and repairs it - with the very entry it hands to the caller
+		backup := cl.Backups(view, "d", key)[0]
+		if err := ownerDM.Put(ctx, key, []byte("older-0000")); err != nil {
+			return "setup", err.Error()
+		}
+		simnet.N.Cut(owner.Name, backup.Name, true)
+		if err := ownerDM.Put(ctx, key, []byte("original-1")); err != nil {
+			return "setup", err.Error()
+		}
+		simnet.N.Cut(owner.Name, backup.Name, false)
+		r, err := dm.Get(ctx, key)
+		if err != nil {
+			return "setup", err.Error()
+		}
+		var b []byte
+		if cs.Handle == "Get.Byte" {
+			b, err = r.Byte()
+		} else {
+			err = r.Scan(&b)
+		}
+		if err != nil || string(b) != "original-1" {
+			return "setup", fmt.Sprintf("Get returned %q (%v)", b, err)
+		}
+		copy(b, "XXXXXXXXXX")
+		cl.DeliverAsync() // whatever the Get left to run in the background runs now
+		copies := 0
+		for _, m := range cl.Live() {
+			for _, f := range m.DB.VerifDMap().VerifFragments() {
+				if f.Name != "dmap.d" {
+					continue
+				}
+				for _, e := range f.Entries {
+					if e.Key != key {
+						continue
+					}
+					copies++
+					if !strings.Contains(string(e.Value), "original-1") {
+						return "returned-value-aliased/read-repair/" + sig, fmt.Sprintf("the caller overwrote the bytes a Get had returned; the %s copy on %s (written by the read-repair of that Get) now holds %q", f.Kind, m.Name, e.Value)
+					}
+				}
+			}
+		}
+		if copies != 2 {
+			return "setup", fmt.Sprintf("%d stored copies after a Get with read-repair, 2 expected", copies)
+		}
+		if got, err := readStored(); err != nil || got != "original-1" {
+			return "returned-value-aliased/read-repair/" + sig, fmt.Sprintf("the caller overwrote the bytes a Get had returned; the stored value now reads %q (err %v)", got, err)
+		}
+		return "", ""
+	}
 	if cs.PutBuf {
 		buf := []byte("original-1")
 		var perr error
